@@ -31,6 +31,12 @@ func c16(c *ctx) {
 		}
 		w.assoc(0)
 		precs := []uint32{0, 1, 65534, 65535, 32768, 255, 256}
+		if c.thorough() {
+			// a sweep through the precedence range (every priority value matters only at the boundaries, which are above)
+			for i := 0; i < 48; i++ {
+				precs = append(precs, uint32(r.Intn(65536)))
+			}
+		}
 		teids := []uint32{1, 0xFFFFFFFF, 0x80000000, 12345}
 		qfis := []uint8{0, 9, 63, 1, 32}
 		n := 0
